@@ -164,14 +164,16 @@ def run_cbmc_group(g, keep=False):
         return res
     cur = gb0
     # optional: replace calls (hash abstraction etc.)
-    if g.replace_calls:
-        nxt = os.path.join(wd, 'b.gb')
-        cmd = ['goto-instrument'] + sum([['--replace-calls', a + ':' + b] for a, b in g.replace_calls], []) + [cur, nxt]
+    # optional: redirect calls (hash abstraction, call-site precondition interposers); one
+    # goto-instrument invocation per pair, in order, so that later pairs see earlier results
+    for k, (a, b) in enumerate(g.replace_calls):
+        nxt = os.path.join(wd, 'b%d.gb' % k)
+        cmd = ['goto-instrument', '--replace-calls', a + ':' + b, cur, nxt]
         res.cmds.append(' '.join(cmd))
         rc, out, dt = _run(cmd, 300)
         res.log += out
         if rc != 0:
-            res.status = 'error'; res.reason = 'goto-instrument --replace-calls failed: ' + out[-1500:]
+            res.status = 'error'; res.reason = 'goto-instrument --replace-calls failed (extraction break): ' + out[-1500:]
             res.seconds = time.time() - t0
             return res
         cur = nxt
@@ -298,7 +300,7 @@ def run_cbmc_group(g, keep=False):
     elif res.status != 'undecided':
         res.status = 'ok'
     if not keep:
-        for f in ('a.gb', 'b.gb', 'c.gb'):
+        for f in [x for x in os.listdir(wd) if x.endswith('.gb')]:
             try:
                 os.unlink(os.path.join(wd, f))
             except OSError:
